@@ -201,6 +201,20 @@ mtbl_reader_init_fd(int fd, const struct mtbl_reader_options *opt)
 			return NULL;
 		}
 	}
+
+	/*
+	 * The index block (length prefix, checksum, contents) must fit between
+	 * its offset and the metadata block; otherwise the length is bogus and
+	 * following it would read past the end of the file.
+	 */
+	uint64_t index_space = r->len_data - MTBL_METADATA_SIZE - r->m.index_block_offset;
+	if (index_len_len == 0 ||
+	    index_len_len + sizeof(uint32_t) > index_space ||
+	    index_len > index_space - index_len_len - sizeof(uint32_t)) {
+		mtbl_reader_destroy(&r);
+		return (NULL);
+	}
+
 	index_data = r->data + r->m.index_block_offset + index_len_len + sizeof(uint32_t);
 	if (r->opt.verify_checksums) {
 		uint32_t index_crc, calc_crc;
